@@ -60,6 +60,8 @@ class Extractor:
         self.atoms = atoms  # source text -> Val
         self.locals: dict[str, Val] = dict(locals_ or {})
         self.folder = Folder(model, fn.module, fn.cls)
+        # shift-immediate formats store a zero-extended 5-bit amount (R01.immw)
+        self.imm_nonneg = fn.cls is not None and any(k.name == "ShiftITypeInstruction" for k in model.mro(fn.cls))
 
     def const(self, e: ast.AST) -> Optional[int]:
         try:
@@ -96,8 +98,9 @@ class Extractor:
                 if cn in CASTS_SIGN:
                     return Val(v.t, CASTS_SIGN[cn], True)
                 kind, w = NARROW[cn]
-                if _is_imm(v.t):
-                    # immediates are at most 21 bits wide and I/S immediates 12: a 16-bit cast is the identity
+                if _is_imm(v.t) and (kind == "sext" or self.imm_nonneg) and w >= 16:
+                    # I/S immediates are 12 bits wide: a *signed* 16-bit cast is the identity; an unsigned one
+                    # only for formats whose immediate is never negative (shift amounts)
                     return Val(v.t, "s" if kind == "sext" else v.sign, v.wrapped)
                 if kind == "trunc" and v.t[0] == "op" and v.t[1] == f"trunc{w}":
                     return v
